@@ -721,6 +721,12 @@ func genMultiPoly(t *rapid.T) multiPoly {
 		k := rapid.IntRange(1, 6).Draw(t, "rings")
 		maxN := rapid.SampledFrom([]int{8, 10, 14, 24}).Draw(t, "maxN")
 		rp := gen.DrawRingsAt(t, fmt.Sprintf("f%d", f), centre, k, maxN, 25*math.Pi/180)
+		if f > 0 && rapid.IntRange(0, 2).Draw(t, "hug") == 0 {
+			// shell + a hole one edge of which lies along a shell edge (bounds differ by rounding only)
+			if h, ok := gen.HugRings(t, fmt.Sprintf("h%d", f), centre, rapid.Float64Range(0.05, 0.4).Draw(t, "hugr")); ok {
+				rp = h
+			}
+		}
 		c.F = append(c.F, rp)
 		for _, r := range rp.Rings {
 			all = append(all, r...)
@@ -822,7 +828,7 @@ func init() {
 		Rule:  "polygons of 1..5 (1 in 10: up to 16, reaching cumulativeEdges) concentric star rings (nesting depth known from the construction) × 24 probes; oracle as loop_paths over all rings; Polygon.ContainsPoint, ContainsPointQuery, ShapeContains, and the Invert()ed complement contains each probe exactly when the polygon does not. Non-trivial: ≥ 32 vertices in total or a probe is a vertex.",
 		Quick: 15000, Thorough: 150000}, genPolyProbe, checkPolygon)
 	ev.Define("polygon_multi_parity", ev.Options{
-		Rule:  "polygons assembled by PolygonFromLoops from the shuffled rings of 2..3 disjoint ring families about distinct cube-face centres (1..6 rings each with 8..24 vertices, so up to 18 loops of different sizes and several top-level shells) x 20 probes + the family centres; oracle = exact crossing parity over all rings; Polygon.ContainsPoint, ContainsPointQuery, ShapeContains; the Invert()ed polygon (direct and through a ShapeIndex) contains a probe exactly when the polygon does not; inverting twice restores the answers. Non-trivial: more than 12 loops or at least 32 vertices.",
+		Rule:  "polygons assembled by PolygonFromLoops from the shuffled rings of 2..3 disjoint ring families about distinct cube-face centres (1..6 rings each with 8..24 vertices, so up to 18 loops of different sizes and several top-level shells; a third of the later families is instead a shell of 4..8 long edges with a triangular hole one edge of which lies strictly inside but within rounding of a shell edge) x 20 probes + the family centres; oracle = exact crossing parity over all rings; Polygon.ContainsPoint, ContainsPointQuery, ShapeContains; the Invert()ed polygon (direct and through a ShapeIndex) contains a probe exactly when the polygon does not; inverting twice restores the answers. Non-trivial: more than 12 loops or at least 32 vertices.",
 		Quick: 8000, Thorough: 100000}, genMultiPoly, checkMultiPoly)
 	ev.Define("tiling_cells_full", ev.Options{
 		Rule:  "all 6·4^L cell loops of level L ∈ {0,1,2}; probes = cell vertices, points on cell edges ±2 ulps, ±2-ulp neighbours of vertices, uniform points; each probe is contained in exactly one loop. All cases non-trivial.",
